@@ -4,7 +4,8 @@
 # records the outcome in seeded/<id>/detected.txt (mutants/<name>.detected.txt). Works on scratch
 # copies under /tmp (worktree of /repo HEAD + copy of /verif/sim pointing at it), removed at the end,
 # so it can run next to other work; the result is the same as `tools/try_mutant.sh` on /repo itself.
-# usage: seeded_eval.sh [shard] [nshards] [only-missing]     (default: shard 0 of 1)
+# usage: seeded_eval.sh [shard] [nshards] [only-missing]     (default: shard 0 of 1; only-missing skips changes that
+# already have a detected.txt - delete the file to have one evaluated again)
 set -u
 SHARD=${1:-0}; NSHARDS=${2:-1}; ONLY_MISSING=${3:-}
 R=/tmp/evalrepo$SHARD; S=/tmp/evalsim$SHARD; O=/tmp/evalout$SHARD
@@ -28,7 +29,7 @@ i=0
 for d in /verif/seeded/*/; do
   i=$((i+1)); [ $((i % NSHARDS)) -eq $SHARD ] || continue
   id=$(basename $d); prop=${id%%-*}
-  if [ -n "$ONLY_MISSING" ] && [ -s $d/detected.txt ] && [ $d/detected.txt -nt /verif/sim/src/main.rs ]; then continue; fi
+  if [ -n "$ONLY_MISSING" ] && [ -s $d/detected.txt ]; then continue; fi
   run_one $d/patch.diff $prop $d/detected.txt
   echo "$id: $(head -1 $d/detected.txt)"
 done
